@@ -51,6 +51,15 @@ func c06Special(t *verifrt.Tape) []string {
 		`SecRule ARGS "@detectSQLi" "id:162,phase:2,pass,nolog,t:urlDecode"`,
 		`SecRule ARGS "@detectXSS" "id:163,phase:2,pass,nolog,t:htmlEntityDecode"`,
 		`SecRule REQUEST_HEADERS "@pmFromDataset ds1" "id:164,phase:1,pass,nolog"`,
+		`SecRule ARGS "@contains %{tx.first}" "id:165,phase:2,pass,nolog,setvar:tx.c165=%{MATCHED_VAR}"`,
+		`SecRule ARGS_NAMES "@streq %{tx.0}" "id:166,phase:2,pass,nolog"`,
+		`SecRule ARGS "@validateUrlEncoding" "id:167,phase:2,pass,nolog"`,
+		`SecRule ARGS "@validateUtf8Encoding" "id:168,phase:2,pass,nolog"`,
+		`SecRule &ARGS "@gt %{tx.cnt}" "id:169,phase:2,pass,nolog,setvar:tx.big=1"`,
+		`SecRule REQUEST_URI "@strmatch tok" "id:170,phase:1,pass,log,msg:'uri %{REQUEST_URI} %{tx.first}',logdata:'%{MATCHED_VAR_NAME}=%{MATCHED_VAR}',setvar:tx.%{MATCHED_VAR_NAME}=+1"`,
+		`SecRule ARGS "@rx ^(\w+)\s(\w+)$" "id:171,phase:2,pass,nolog,capture,t:urlDecode,setvar:tx.w1=%{TX.1},setvar:tx.w2=%{TX.2}"`,
+		`SecRule REQUEST_COOKIES "@beginsWith %{tx.w1}" "id:172,phase:2,pass,nolog"`,
+		`SecRule ARGS "@endsWith %{MATCHED_VAR}" "id:173,phase:2,pass,nolog,chain"` + "\n" + `  SecRule MATCHED_VARS "@within %{tx.w1} %{tx.w2} evil" "t:lowercase"`,
 	}
 	var out []string
 	for _, l := range pool {
